@@ -21,6 +21,9 @@ def grid_of(name):
         return [BASE + timedelta(days=d) for d in (0, 3, 4, 5)]
     if name == "mixed":
         return [BASE, BASE + timedelta(seconds=60), BASE + timedelta(days=1, seconds=60), BASE + timedelta(days=4, seconds=60)]
+    if name == "month":
+        # same day of the month, same time of day, consecutive months (and a year change): only the calendar DATE differs
+        return [datetime(2019, 11, 15, 10, 0), datetime(2019, 12, 15, 10, 0), datetime(2020, 1, 15, 10, 0), datetime(2021, 1, 15, 10, 0)]
     if name == "min5":
         return [BASE + timedelta(minutes=i) for i in range(5)]
     if name == "min12":
@@ -320,7 +323,7 @@ def run_config(cfg):
 
 
 CROSSED = [("L", [0, 30]), ("fold", ["whole", "late", "middle", "endmid", "startmid", "bothmid", "single"]), ("hist", ["all", "markov", "warm1", "warm2"])]
-DEVIATE = [("grid", ["min", "day", "mixed", "min12"]), ("ncon", [2, 1]), ("eplen", [None, 1, 2]), ("start", [0, 1, 2]),
+DEVIATE = [("grid", ["min", "day", "mixed", "min12", "month"]), ("ncon", [2, 1]), ("eplen", [None, 1, 2]), ("start", [0, 1, 2]),
            ("unsorted", [False, True]), ("extras_first", [False, True]), ("swap_extras", [False, True]), ("dropbar", [0, 1, 2])]
 
 
